@@ -147,6 +147,7 @@ func sameNamed(t types.Type, n *types.Named) bool {
 type built struct {
 	all     bool            // whole struct carried (copy of receiver / positional literal)
 	opaque  string          // delegated to a call (callee name)
+	opaqueFn *types.Func
 	fields  map[string]bool // fields explicitly set
 	unknown bool
 	isNil   bool
@@ -218,6 +219,7 @@ func analyseCopyCtor(p *core.Program, cc copyCtor) (res []built) {
 					}
 					if d.opaque != "" {
 						b.opaque = d.opaque
+						b.opaqueFn = d.opaqueFn
 					}
 					if d.unknown {
 						b.unknown = true
@@ -239,6 +241,7 @@ func analyseCopyCtor(p *core.Program, cc copyCtor) (res []built) {
 						}
 						if d.opaque != "" {
 							b.opaque = d.opaque
+							b.opaqueFn = d.opaqueFn
 						}
 						if d.unknown {
 							b.unknown = true
@@ -326,6 +329,7 @@ func analyseCopyCtor(p *core.Program, cc copyCtor) (res []built) {
 			name := "call"
 			if f := calleeFunc(info, x); f != nil {
 				name = core.ObjFuncKey(f)
+				b.opaqueFn = funcOrigin(f)
 			}
 			b.opaque = name
 			return b
@@ -425,6 +429,17 @@ func scanCopyF(c *core.Ctx) []ob {
 				nField += cc.st.NumFields()
 				continue
 			}
+			if b.opaque != "" && len(b.fields) > 0 {
+				// built by a callee and then completed field by field: the callee's own fields count
+				all, fs := fieldsBuiltBy(c.Program, b.opaqueFn, cc.named, 0)
+				if all {
+					out = append(out, withProps(okOb("COPYF", "COPYF:"+rkey+"#delegates", pos, "delegates construction to "+b.opaque+" and completes it", false), props...))
+					continue
+				}
+				for f := range fs {
+					b.fields[f] = true
+				}
+			}
 			if b.opaque != "" && len(b.fields) == 0 {
 				out = append(out, withProps(okOb("COPYF", "COPYF:"+rkey+"#delegates", pos, "delegates construction to "+b.opaque, false), props...))
 				continue
@@ -449,4 +464,66 @@ func scanCopyF(c *core.Ctx) []ob {
 	c.Stats["copyf_constructors"] = nCtor
 	c.Stats["copyf_fields"] = nField
 	return out
+}
+
+// fieldsBuiltBy returns the fields of T that a function returning T sets on every return (all: the whole struct, or a
+// callee that cannot be looked into).
+func fieldsBuiltBy(p *core.Program, fn *types.Func, named *types.Named, depth int) (bool, map[string]bool) {
+	if fn == nil || fn.Pkg() == nil || depth > 4 {
+		return true, nil
+	}
+	pk := p.ByPath[fn.Pkg().Path()]
+	if pk == nil {
+		return true, nil
+	}
+	var fd *ast.FuncDecl
+	for _, f := range pk.Syntax {
+		for _, d := range f.Decls {
+			if x, ok := d.(*ast.FuncDecl); ok && x.Body != nil {
+				if o, _ := pk.TypesInfo.Defs[x.Name].(*types.Func); o != nil && funcOrigin(o) == fn {
+					fd = x
+				}
+			}
+		}
+	}
+	st, _ := named.Underlying().(*types.Struct)
+	if fd == nil || st == nil {
+		return true, nil
+	}
+	bs := analyseCopyCtor(p, copyCtor{pk, fd, named, st})
+	var inter map[string]bool
+	for _, b := range bs {
+		if b.isNil {
+			continue
+		}
+		fs := map[string]bool{}
+		switch {
+		case b.all, b.unknown && b.opaque == "":
+			return true, nil
+		case b.opaque != "":
+			all, sub := fieldsBuiltBy(p, b.opaqueFn, named, depth+1)
+			if all {
+				return true, nil
+			}
+			for f := range sub {
+				fs[f] = true
+			}
+		}
+		for f := range b.fields {
+			fs[f] = true
+		}
+		if inter == nil {
+			inter = fs
+		} else {
+			for f := range inter {
+				if !fs[f] {
+					delete(inter, f)
+				}
+			}
+		}
+	}
+	if inter == nil {
+		return true, nil
+	}
+	return false, inter
 }
